@@ -31,6 +31,17 @@ func (o goSliceObject) getValue(index int64) (reflect.Value, bool) {
 	return reflect.Value{}, false
 }
 
+// replace installs a grown slice: in the Go location the slice lives in when it is
+// addressable (a field of a struct passed by pointer), so that Go and later script
+// reads see it; in our own header otherwise (a slice passed by value).
+func (o *goSliceObject) replace(grown reflect.Value) {
+	if o.value.CanSet() {
+		o.value.Set(grown)
+		return
+	}
+	o.value = grown
+}
+
 func (o *goSliceObject) setLength(rt *runtime, value Value) {
 	want, err := value.ToInteger()
 	if err != nil {
@@ -57,7 +68,7 @@ func (o *goSliceObject) setLength(rt *runtime, value Value) {
 		// Needs expanding.
 		newSlice := reflect.MakeSlice(o.value.Type(), wantInt, wantInt)
 		reflect.Copy(newSlice, o.value)
-		o.value = newSlice
+		o.replace(newSlice)
 	}
 }
 
@@ -71,7 +82,7 @@ func (o *goSliceObject) setValue(rt *runtime, index int64, value Value) bool {
 	if !exists {
 		if int64(o.value.Len()) == index {
 			// Trying to append e.g. slice.push(...), allow it.
-			o.value = reflect.Append(o.value, reflectValue)
+			o.replace(reflect.Append(o.value, reflectValue))
 			return true
 		}
 		return false
